@@ -175,7 +175,13 @@ def js_term(T, c):
 def b64_term(T, c):
     return '(B64C %s %s %s %s)' % (T.hx(c['b']), T.hx(c['enc']), T.hx(c['in']), ('(Some %s)' % T.hx(c['dec'])) if c['dec_ok'] else 'None')
 def jw_term(T, c):
-    wrap = '(Some (%s,%s))' % (T.hx(c['dest']), T.msg(c['m'])) if c.get('m') else 'None'
+    if c.get('m'):
+        m = dict(c['m'])
+        if m['m']:       # hand the entries over in a non-sorted order: reversed, then rotated by the case's payload length
+            l = list(reversed(m['m'])); k = len(c['p'] or '') % len(l); m['m'] = l[k:] + l[:k]
+        wrap = '(Some (%s,%s))' % (T.hx(c['dest']), T.msg(m))
+    else:
+        wrap = 'None'
     frames = ';'.join('(%s,%s)' % (T.hx(f['text']), 'None' if f['members'] is None else
                                    '(Some [%s])' % ';'.join('(%s,%s)' % (T.hx(k), T.hx(v)) for k, v in f['members'])) for f in c['frames'])
     return '(JwC %s %s %s [%s] %s)' % (wrap, B(c['valid']), T.obytes(c['p']), frames, unw_res(T, c['got']))
@@ -191,6 +197,9 @@ def tg_term(T, c):
         c['kind'], B(c['nofb']), B(c['ismsg']), B(c['isgogo']), T.ostr(c['v']), T.obytes(c['payload']), T.hx(c['prev']),
         lib_dec(T, c['vinto'], False), lib_dec(T, c['vfresh'], False), lib_dec(T, c['ginto'], True), T.hx(c['gleft']),
         lib_dec(T, c['gfresh'], True), got)
+
+def ji_term(T, c):
+    return '(JiC (%s)%%Z %s %s %s)' % (c['z'], T.hx(c['enc']), T.hx(c['in']), ('(Some (%s)%%Z)' % c['dec']) if c['dec_ok'] else 'None')
 
 FAMILIES = {
     # key: (case type, term builder, [(result name, Gallina function, role)], chunk size, what)
@@ -217,6 +226,7 @@ FAMILIES = {
     'cc':  ('cc_case', cc_term, [('mis', 'cc_mismatches', 'm')], 250, 'Marshal with one of ProtoMarshaler / ProtobufMarshaler(fallback on/off), Unmarshal with another'),
     'tg':  ('tg_case', tg_term, [('mis', 'tg_mismatches', 'm'), ('vio', 'tg_violations', 'v'), ('law', 'tg_law_failures', 'l')], 200,
             'CQRS marshaler Unmarshal into a reused / pre-filled target, and on payloads that are not the output of Marshal'),
+    'ji':  ('ji_case', ji_term, [('mis', 'ji_mismatches', 'm')], 400, 'Gallina enc_int / dec_int against json.Marshal(int64) / json.Unmarshal(text, &int64)'),
     'u8':  ('u8_case', u8_term, [('mis', 'u8_mismatches', 'm')], 2000, 'utf8_valid (Gallina) against utf8.Valid (Go): boundary sweep + mutated strings'),
 }
 
@@ -333,7 +343,7 @@ def run_once(ctx, res, seed, scale, big, tag):
                 if c.get('msg'): res.nontrivial.add(('rp', c['type'], c['res'], c['errtext']))
             elif fam == 'tg':
                 if c['step'] > 0 or c['prev'] != c.get('vfresh', {}).get('b'): res.nontrivial.add(('tg', c['kind'], c['prev'], c['payload']))
-            elif fam in ('unw', 'ru', 'nfm', 'u8', 'js', 'b64', 'jw', 'ctx', 'cc'):
+            elif fam in ('unw', 'ru', 'nfm', 'u8', 'js', 'b64', 'jw', 'ctx', 'cc', 'ji'):
                 res.nontrivial.add((fam, json.dumps(c, sort_keys=True)))
     if not res.samples:
         res.sample(dict(family='eq', case=unhex_deep(data['eq'][0])))
